@@ -198,6 +198,22 @@ PROPS["C03"] = {
 }
 
 
+PROPS["C13"] = {
+    "level": "model_checking",
+    "explanation": "the real READDIR / READDIRPLUS paging loop driven symbolically over a symbolic directory (any subset of slots empty) with an arbitrary size limit on every page; progress, increasing cookies, termination, exactly-once and membership asserted; READDIRPLUS handles/attributes are C08's harness",
+    "assumptions": JOURNAL + ["pre-state satisfies Inv (DESIGN.md §4)", "directory of at most K_slots entries in one block", "no mutation between pages (entries never move: slot-stability is C04's obligation)"],
+    "outside": ["directories spanning several blocks", "entries added/removed between pages"],
+    "harnesses": [H("nfs.VerifC13Readdir", q=dict(STEPQ, inums=1, dirslots=4), t=dict(STEPT, dirslots=5), lmax=3, budget_s=400, budget_s_t=2400)],
+}
+
+PROPS["C12"] = {
+    "level": "model_checking",
+    "explanation": "inductive step for the zero invariant I7: SETATTR(size), WRITE and REMOVE executed symbolically on a file in the direct-block range from a state satisfying I7; every block freed is all-zero on the logical disk and the bytes beyond the new size in the last block are zero (solver witnesses for the byte position)",
+    "assumptions": JOURNAL + ["pre-state satisfies Inv incl. I7 (free blocks are zero: the block returned by the allocator is zero; tail of the last block is zero)"],
+    "outside": ["files beyond the 8 direct blocks (index blocks are covered by the freed-block clause only)", "crash images (C01)"],
+    "harnesses": [H("nfs.VerifC12Zero", covers=("ok", "freed", "tail", "err"), q=dict(STEPQ, inums=1, zeroalloc=1, sizeblocks=0, pendingshrink=1, sizes=1), t=dict(STEPT, zeroalloc=1, sizeblocks=0, sizes=2, inums=2), lmax=3, budget_s=400, budget_s_t=2400)],
+}
+
 PROPS["C14"] = {
     "level": "other",
     "monitor_harnesses": ["VerifStep", "VerifC14Background"],
